@@ -480,6 +480,18 @@ theorem pickle_eq (S : SetOrder) (hS : MemPreserving S) (d : EqCtx) (x : Inst) :
   rw [rebuildAttrs_eq_map]
   exact instEq_map d (rebuildV S) x true x.nones (fun p _ => pyEq_rebuildV S hS p.2) (namesEq_refl _)
 
+/-- **C11 (pickle, with the order of the new `__dict__`)**: the unpickled copy, its `__dict__`
+    re-ordered as `__getstate__` / `__setstate__` leave it, `==` the original -/
+theorem pickle_ord_eq (fields : List String) (S : SetOrder) (hS : MemPreserving S) (d : EqCtx) (x : Inst) :
+    instEq d x (pickleOrdI fields S x) = true := by
+  obtain ⟨hc, hu, hall, hn⟩ := (instEq_fieldwise d x (pickleI S x)).1 (pickle_eq S hS d x)
+  exact (instEq_fieldwise d x _).2 ⟨hc, hu, fun k => by rw [getA_pickleOrd]; exact hall k, hn⟩
+
+theorem pickle_ord_example :
+    (pickleOrdI ["a", "b", "c"] id { cls := "A", attrs := [("z", .int 9), ("c", .int 3), ("a", .int 1)] }).attrs
+      = [("a", .int 1), ("c", .int 3), ("z", .int 9)] := by
+  rfl
+
 /-- … and prints / hashes like it when the rebuilt sets keep their iteration order (otherwise not:
     `deepcopy_hash_counterexample` applies to pickle verbatim, finding `pickle-hash-differs:set-order`) -/
 theorem pickle_hash_partial (R : Render) (x : Inst) :
